@@ -28,6 +28,8 @@ ASSUMPTIONS = [
     'identifier comparison is equality (as in match_id)',
 ]
 REQUIRED_CLASSES = {'all': ['proceeds', 'refused']}
+MAX_PATHS = {'quick': 20000, 'thorough': 300000}
+CASE_SECONDS = {'quick': 240, 'thorough': 3000}
 QUICK_VALIDATE = 6
 
 PEER_IP = '10.0.0.2'
